@@ -91,7 +91,14 @@ def run_check(prop, module, tier, explanation, assumptions, seed=0):
     evidence_path = os.path.join(evdir, prop + ".json")
     os.makedirs(os.path.dirname(evidence_path), exist_ok=True)
     try:
-        module.check(ctx)
+        try:
+            module.check(ctx)
+        except AnalysisBroken as e:
+            # a later analysis of this check could not be completed; obligations that had already failed stay failed (a violation
+            # established by one rule is not taken back because another rule ran out of precision) - otherwise: no verdict
+            if all(o.ok for o in ctx.obs):
+                raise
+            ctx.floor_failures.append("analysis stopped early: %s" % e)
         if ctx.floor_failures and all(o.ok for o in ctx.obs):
             raise AnalysisBroken(ctx.floor_failures[0])
         for m in ctx.floor_failures:
